@@ -424,6 +424,9 @@ def dev_oracle_checks(ctx, hist, snaps):
                 by_path[p] = ident
                 base = os.path.join("dev", kind, (n["recipe"] if kind == "src" else n["pname"]).replace("::", "/"))
                 bases.setdefault(key_of(n, kx), set()).add(base)
+        allb = {b for bs in bases.values() for b in bs}
+        sep_ok = not any((b + "/") in allb for b in allb if not b.endswith("/"))
+        ctx.count("dev:hypothesis-sep-" + ("holds" if sep_ok else "violated"))
         dirs = dict(rows)
         # a variant that still exists (same recipe, same variant id, presented under one and the same base
         # directory in both states) keeps its directory
@@ -448,15 +451,22 @@ def run_dev_history(hist):
 
 def part_dev(ctx, extra):
     rng = ctx.rng
-    n_hist = ctx.n(200, 5000)
+    n_hist = ctx.n(180, 2500)
     cases, meta = [], []
     hists = [c["history"] for c in extra if c.get("part") == "dev"]
     for _ in range(n_hist):
         hists.append(gen_history(rng, rng.randint(3, 12 if ctx.tier == "thorough" else 8)))
+    reported = set()
     for hist in hists:
         snaps = run_dev_history(hist)
         ctx.evaluated(len(hist))
-        dev_oracle_checks(ctx, hist, snaps)
+        v = dev_first_violation(hist, snaps, ctx)
+        if v is not None:
+            ctx.count("dev:violation:" + v[0])
+            if v[0] not in reported:             # shrink and report one witness per class
+                reported.add(v[0])
+                small = shrink_dev_violation(hist, v[0])
+                ctx.violation(v[0], v[1], {"part": "dev", "history": small})
         want = []
         keys_seen = set()
         for proj, (status, vsn, rows, paths) in zip(hist, snaps):
@@ -482,8 +492,11 @@ def part_dev(ctx, extra):
         ctx.tie_broken("C16 dev model evaluation failed", log)
         return
     ctx.validated(sum(len(meta[i]) for i in range(len(cases)) if i not in set(bad)))
-    for i in bad[:5]:
-        ctx.tie_broken("dev-oracle-correspondence", {"part": "dev", "history": shrink_history(meta[i])})
+    for n, i in enumerate(bad[:3]):
+        h = meta[i]
+        if n == 0 and not ctx.violations:
+            h = shrink_history(h)
+        ctx.tie_broken("dev-oracle-correspondence", {"part": "dev", "history": h})
 
 
 def dev_model_agrees(hist):
@@ -504,20 +517,74 @@ def dev_model_agrees(hist):
     return bad == []
 
 
-def shrink_history(hist):
-    """drop states / nodes while the disagreement persists (bounded effort)"""
-    budget = [12]
+class _Collect:
+    """stand-in for ctx that only records violations"""
+    def __init__(self):
+        self.violations = []
+
+    def violation(self, sig, what, replay):
+        self.violations.append((sig, what))
+
+    def count(self, *a, **k):
+        pass
+
+
+def dev_first_violation(hist, snaps=None, ctx=None):
+    col = _Collect()
+    if ctx is not None:
+        col.count = ctx.count
+    dev_oracle_checks(col, hist, snaps if snaps is not None else run_dev_history(hist))
+    return col.violations[0] if col.violations else None
+
+
+def prune_project(proj, drop):
+    nodes = {k: dict(v, deps=[d for d in v["deps"] if d != drop]) for k, v in proj["nodes"].items() if int(k) != drop}
+    return dict(proj, nodes=nodes)
+
+
+def shrink_dev_violation(hist, sig, budget=200):
+    """drop project states and packages while the implementation still shows the same violation class"""
+    left = [budget]
 
     def fails(h):
-        if budget[0] <= 0:
+        if left[0] <= 0 or not h:
             return False
-        budget[0] -= 1
+        left[0] -= 1
+        v = dev_first_violation(h)
+        return v is not None and v[0] == sig
+    changed = True
+    while changed and left[0] > 0:
+        changed = False
+        for i in range(len(hist)):
+            cand = hist[:i] + hist[i + 1:]
+            if fails(cand):
+                hist, changed = cand, True
+                break
+        if changed:
+            continue
+        ids = sorted({int(k) for p in hist for k in p["nodes"] if k != "0"})
+        for nid in ids:
+            cand = [prune_project(p, nid) for p in hist]
+            if fails(cand):
+                hist, changed = cand, True
+                break
+    return hist
+
+
+def shrink_history(hist, budget=8):
+    """drop states while the model/implementation disagreement persists (each probe is a coqc run: small budget)"""
+    left = [budget]
+
+    def fails(h):
+        if left[0] <= 0:
+            return False
+        left[0] -= 1
         try:
             return not dev_model_agrees(h)
         except Exception:
             return False
     changed = True
-    while changed and budget[0] > 0:
+    while changed and left[0] > 0:
         changed = False
         for i in range(len(hist)):
             cand = hist[:i] + hist[i + 1:]
@@ -533,10 +600,56 @@ def fresh_state():
     bob.state.finalize()
 
 
+def byname_impl(ops):
+    """run an op sequence on the real BobState in a scratch workspace"""
+    import bob.state
+    d = core.scratch_dir("c16bn")
+    res = []
+    try:
+        with in_dir(d):
+            fresh_state()
+            try:
+                for op in ops:
+                    try:
+                        if op[0] == "get":
+                            res.append(("dir", bob.state.BobState().getByNameDirectory(op[1], op[2], op[3])))
+                        elif op[0] == "existing":
+                            x = bob.state.BobState().getExistingByNameDirectory(op[1])
+                            res.append(("none",) if x is None else ("dir", x))
+                        elif op[0] == "all":
+                            res.append(("all", [(a, bool(b)) for a, b in bob.state.BobState().getAllNameDirectores()]))
+                        else:
+                            bob.state.finalize()
+                            res.append(("reload",))
+                    except (TypeError, KeyError, IndexError, AttributeError) as e:
+                        res.append(("internal",))
+            finally:
+                fresh_state()
+    finally:
+        shutil.rmtree(d, ignore_errors=True)
+    return res
+
+
+def byname_violation(ops, res):
+    """the release-mode half of the property on one observed op sequence (name spaces assumed disjoint)"""
+    gets = [(op, r) for op, r in zip(ops, res) if op[0] == "get"]
+    seen, owner = {}, {}
+    for op, r in gets:
+        if r[0] != "dir":
+            return ("byname-internal-exception", "getByNameDirectory raised on %r" % (op,))
+        if op[2] in seen and seen[op[2]] != r[1]:
+            return ("release-dir-changed-for-existing-variant", "digest %s moved %s -> %s" % (op[2], seen[op[2]], r[1]))
+        seen[op[2]] = r[1]
+        if r[1] in owner and owner[r[1]] != op[2] and not any(o[1].endswith("/") for o, _ in gets):
+            return ("release-dir-shared-by-different-variants", "directory %s given to two digests" % r[1])
+        owner[r[1]] = op[2]
+    return None
+
+
 def part_byname(ctx, extra):
     import bob.state
     rng = ctx.rng
-    n_seq = ctx.n(200, 4000)
+    n_seq = ctx.n(200, 3000)
     bases = ["work/a/dist", "work/a/build", "work/a/src", "work/a-b/dist", "work/lib/x/dist", "work/a/dist/", "work/1/dist",
              "work/a/dist/1"]
     cases, meta = [], []
@@ -563,31 +676,9 @@ def part_byname(ctx, extra):
             else:
                 ops.append(["reload"])
         seqs.append(ops)
+    reported = set()
     for ops in seqs:
-        d = core.scratch_dir("c16bn")
-        res = []
-        try:
-            with in_dir(d):
-                fresh_state()
-                try:
-                    for op in ops:
-                        try:
-                            if op[0] == "get":
-                                res.append(("dir", bob.state.BobState().getByNameDirectory(op[1], op[2], op[3])))
-                            elif op[0] == "existing":
-                                x = bob.state.BobState().getExistingByNameDirectory(op[1])
-                                res.append(("none",) if x is None else ("dir", x))
-                            elif op[0] == "all":
-                                res.append(("all", [(a, bool(b)) for a, b in bob.state.BobState().getAllNameDirectores()]))
-                            else:
-                                bob.state.finalize()
-                                res.append(("reload",))
-                        except (TypeError, KeyError, IndexError, AttributeError) as e:
-                            res.append(("internal",))
-                finally:
-                    fresh_state()
-        finally:
-            shutil.rmtree(d, ignore_errors=True)
+        res = byname_impl(ops)
         ctx.evaluated()
         gets = [(op, r) for op, r in zip(ops, res) if op[0] == "get"]
         wf = all(op[1] not in [o[2] for o in ops if o[0] == "get"] + [o[1] for o in ops if o[0] == "existing"]
@@ -598,22 +689,22 @@ def part_byname(ctx, extra):
             ctx.nontrivial(("bn", json.dumps(ops)))
         # property oracle (release mode): distinct variant ids never share a directory, a variant keeps its directory
         if wf:
-            seen = {}
-            owner = {}
-            for op, r in gets:
-                if r[0] != "dir":
-                    ctx.violation("byname-internal-exception", "getByNameDirectory raised on %r" % (op,), {"part": "byname", "ops": ops})
-                    break
-                if op[2] in seen and seen[op[2]] != r[1]:
-                    ctx.violation("release-dir-changed-for-existing-variant", "digest %s moved %s -> %s" % (op[2], seen[op[2]], r[1]),
-                                  {"part": "byname", "ops": ops})
-                    break
-                seen[op[2]] = r[1]
-                if r[1] in owner and owner[r[1]] != op[2] and not any(o[1].endswith("/") for o, _ in gets):
-                    ctx.violation("release-dir-shared-by-different-variants", "directory %s given to two digests" % r[1],
-                                  {"part": "byname", "ops": ops})
-                    break
-                owner[r[1]] = op[2]
+            v = byname_violation(ops, res)
+            if v is not None:
+                ctx.count("byname:violation:" + v[0])
+                if v[0] not in reported:
+                    reported.add(v[0])
+                    small = list(ops)
+                    changed = True
+                    while changed:
+                        changed = False
+                        for i in range(len(small)):
+                            cand = small[:i] + small[i + 1:]
+                            w = byname_violation(cand, byname_impl(cand))
+                            if w is not None and w[0] == v[0]:
+                                small, changed = cand, True
+                                break
+                    ctx.violation(v[0], v[1], {"part": "byname", "ops": small})
         # model
         ins, outs = [], []
         for op, r in zip(ops, res):
@@ -1041,13 +1132,53 @@ def run_clean_case(ctx, case):
     return ob
 
 
+def shrink_clean_case(case, sig, budget=60):
+    left = [budget]
+
+    def fails(c):
+        if left[0] <= 0:
+            return False
+        left[0] -= 1
+        col = _Collect()
+        try:
+            run_clean_case(col, c)
+        except Exception:
+            return False
+        return any(v[0] == sig for v in col.violations)
+    changed = True
+    while changed and left[0] > 0:
+        changed = False
+        h = case["history"]
+        for i in range(len(h) - 1):
+            cand = dict(case, history=h[:i] + h[i + 1:])
+            if fails(cand):
+                case, changed = cand, True
+                break
+        if changed:
+            continue
+        ids = sorted({int(k) for p in h for k in p["nodes"] if k != "0"})
+        for nid in ids:
+            cand = dict(case, history=[prune_project(p, nid) for p in h])
+            if fails(cand):
+                case, changed = cand, True
+                break
+    return case
+
+
 def part_clean(ctx, extra):
     rng = ctx.rng
-    n = ctx.n(200, 5000)
+    n = ctx.n(160, 2000)
     cases, meta = [], []
     todo = [c for c in extra if c.get("part") == "clean"] + [gen_clean_case(rng) for _ in range(n)]
+    reported = set()
     for case in todo:
-        ob = run_clean_case(ctx, case)
+        col = _Collect()
+        ob = run_clean_case(col, case)
+        for sig, what in col.violations:
+            ctx.count("clean:violation:" + sig)
+            if sig not in reported:
+                reported.add(sig)
+                ctx.violation(sig, what, shrink_clean_case(case, sig))
         ctx.evaluated()
         deleted = sorted(set(ob["fs"]) - set(ob["after_fs"]))
         ctx.count("clean:%s:%s" % (case["mode"], ob["status"]))
@@ -1082,7 +1213,7 @@ def part_prepare(ctx, extra):
     import bob.state
     from bob.builder import LocalBuilder
     rng = ctx.rng
-    n = ctx.n(150, 3000)
+    n = ctx.n(150, 2000)
     cases, meta = [], []
     for ci in range(n):
         there = rng.choice(["none", "dir", "dir", "dir", "link", "file"])
@@ -1179,14 +1310,30 @@ def run(ctx):
         "builder prune decision: only lines 1381-1392 / 1423-1448 are modelled; the script is a section variable",
     ]
     ctx.trusted_base += ["duck-typed Package/Step objects and the RecipeSet stand-in of harness/props/c16.py"]
+    ctx.note("proved (unbounded, Coq): injectivity and stability of the develop dirs table over all histories (hypothesis: no two "
+             "base directories differ only by a trailing slash), termination of the numbering loop, injectivity/stability of "
+             "release by-name directories over all call sequences (hypothesis: base-directory and digest name spaces disjoint), "
+             "prune decision of build/package directories, delete-set theorems of bob clean (only unused, keeps up-to-date results "
+             "of all reachable packages given consistent package ids, dry-run no-op, sources only with -s and force/expendable)")
+    ctx.note("only exercised by the correspondence: that the model predicts the code (visit order, keep rule, numbering, by-name "
+             "table, collectPaths, delete set, state cleanup, prune), SCM status, sqlite/pickle persistence, recipe parsing")
+    ctx.note("observation (not part of the property statement): steps of different kinds with equal Variant-Id (a checkout-less "
+             "package whose buildScript equals a sibling multiPackage's checkoutScript) share one develop directory and "
+             "`bob clean` then raises KeyError: 0 in collectPaths (model: own_paths = None)")
     if ctx.replay:
         return replay(ctx)
     extra = load_corpus()
-    part_dev(ctx, extra)
-    part_byname(ctx, extra)
-    part_clean(ctx, extra)
-    part_prepare(ctx, extra)
-    part_e2e(ctx, extra)
+    import time
+    started = e2e_start(ctx, extra)
+    try:
+        for name, fn in (("dev", part_dev), ("byname", part_byname), ("clean", part_clean), ("prepare", part_prepare)):
+            t0 = time.time()
+            fn(ctx, extra)
+            ctx.count("seconds:" + name, int(time.time() - t0))
+    finally:
+        t0 = time.time()
+        part_e2e(ctx, extra, started)
+        ctx.count("seconds:e2e-wait", int(time.time() - t0))
 
 
 # ------------------------------------------------------------------ part e2e: real bob dev / build / clean
@@ -1241,6 +1388,22 @@ def e2e_ident(spec, name, memo=None):
     return memo[name]
 
 
+def e2e_root_ident(spec):
+    return hashlib.sha1("|".join(["root"] + [e2e_ident(spec, d) for d in spec["rootdeps"]]).encode()).hexdigest()[:12]
+
+
+def e2e_reachable_idents(spec):
+    out, todo, seen = {e2e_root_ident(spec)}, list(spec["rootdeps"]), set()
+    while todo:
+        n = todo.pop()
+        if n in seen:
+            continue
+        seen.add(n)
+        out.add(e2e_ident(spec, n))
+        todo.extend(spec["recipes"][n.partition("-")[0]]["deps"])
+    return sorted(out)
+
+
 def e2e_pkgnames(spec, rname):
     r = spec["recipes"][rname]
     return [rname + "-" + suf for suf in sorted(r["multi"])] if r["multi"] else [rname]
@@ -1262,8 +1425,7 @@ def e2e_write(spec, proj, log):
         f.write("root: True\n")
         if spec["rootdeps"]:
             f.write("depends:\n" + "".join("    - %s\n" % d for d in spec["rootdeps"]))
-        ident = hashlib.sha1("|".join(["root"] + [e2e_ident(spec, d) for d in spec["rootdeps"]]).encode()).hexdigest()[:12]
-        f.write(scripts(ident, 0))
+        f.write(scripts(e2e_root_ident(spec), 0))
     for rname, r in spec["recipes"].items():
         with open(os.path.join(rd, rname + ".yaml"), "w") as f:
             if r["co"] is not None:
@@ -1492,19 +1654,35 @@ def e2e_project(seed, nops, tier):
                     if any(m != "m-" + ident for m in marks):
                         rec["violations"].append(("dir-reused-without-prune",
                                                   "%s step of variant %s started in %s which still held %s" % (kind, ident, pwd, marks),
-                                                  {"part": "e2e", "seed": seed, "history": list(history)}))
+                                                  {"part": "e2e", "seed": seed, "nops": nops, "history": list(history)}))
+                # ... and afterwards every package of the current recipes has a build and a package directory that
+                # holds its own result and nothing of another variant (a stale directory must not be used as is)
+                where = {"part": "e2e", "seed": seed, "nops": nops, "history": list(history)}
+                marks = {}
+                for ws in after["workspaces"]:
+                    if ws.startswith("dev/" if mode == "develop" else "work/"):
+                        marks[ws] = sorted(f for f in os.listdir(os.path.join(proj, ws)) if f.startswith("m-"))
+                for ws, ms in marks.items():
+                    if len(ms) > 1:
+                        rec["violations"].append(("dir-reused-without-prune", "%s holds results of several variants: %r" % (ws, ms), where))
+                for ident in e2e_reachable_idents(spec):
+                    for lbl in ("/build/", "/dist/"):
+                        if not any(lbl in ws and ("m-" + ident) in ms for ws, ms in marks.items()):
+                            rec["violations"].append(("dir-reused-without-prune",
+                                                      "after `bob %s` no %s directory holds the result of variant %s (a stale directory was used)" % (op, lbl.strip("/"), ident),
+                                                      where))
                 if mode == "develop":
                     dirs = {}
                     for k, d in after["db"][1]:
                         if d in dirs:
                             rec["violations"].append(("dev-dir-shared-by-different-keys", "directory %s assigned twice" % d,
-                                                      {"part": "e2e", "seed": seed, "history": list(history)}))
+                                                      {"part": "e2e", "seed": seed, "nops": nops, "history": list(history)}))
                         dirs[d] = k
                     old = dict(before["db"][1])
                     for k, d in after["db"][1]:
                         if k in old and old[k] != d and os.path.dirname(old[k]) == os.path.dirname(d):
                             rec["violations"].append(("dev-dir-changed-for-existing-variant", "%r: %s -> %s" % (k, old[k], d),
-                                                      {"part": "e2e", "seed": seed, "history": list(history)}))
+                                                      {"part": "e2e", "seed": seed, "nops": nops, "history": list(history)}))
                     count("e2e:dev-kept", sum(1 for k, d in after["db"][1] if old.get(k) == d))
                     count("e2e:dev-new", sum(1 for k, d in after["db"][1] if k not in old))
                     tree = e2e_dump(proj, False)
@@ -1514,17 +1692,17 @@ def e2e_project(seed, nops, tier):
                     bn = [v[0] for k, v in after["bn"] if isinstance(v, tuple)]
                     if len(bn) != len(set(bn)):
                         rec["violations"].append(("release-dir-shared-by-different-variants", "by-name directory assigned twice",
-                                                  {"part": "e2e", "seed": seed, "history": list(history)}))
+                                                  {"part": "e2e", "seed": seed, "nops": nops, "history": list(history)}))
                     oldbn = dict((k, v) for k, v in before["bn"] if isinstance(v, tuple))
                     for k, v in after["bn"]:
                         if isinstance(v, tuple) and k in oldbn and oldbn[k][0] != v[0]:
                             rec["violations"].append(("release-dir-changed-for-existing-variant", "%s: %s -> %s" % (k, oldbn[k][0], v[0]),
-                                                      {"part": "e2e", "seed": seed, "history": list(history)}))
+                                                      {"part": "e2e", "seed": seed, "nops": nops, "history": list(history)}))
                 # nothing to do directly after a clean that followed an up-to-date build of this mode
                 if clean_since[mode] == "cleaned" and lines and op != "dev-force":
                     rec["violations"].append(("clean-deletes-uptodate-result",
                                               "after `bob clean` an unchanged project re-ran steps: %r" % lines[:3],
-                                              {"part": "e2e", "seed": seed, "history": list(history)}))
+                                              {"part": "e2e", "seed": seed, "nops": nops, "history": list(history)}))
                 clean_since[mode] = True
                 continue
             # ---- clean
@@ -1551,7 +1729,7 @@ def e2e_project(seed, nops, tier):
             count("e2e:clean-deleted", len(deleted))
             count("e2e:clean-kept", len(after["workspaces"]))
             rm = [l[3:] for l in out.split("\n") if l.startswith("rm ")]
-            where = {"part": "e2e", "seed": seed, "history": list(history)}
+            where = {"part": "e2e", "seed": seed, "nops": nops, "history": list(history)}
             if flags["dry"] and tree_before != tree_after:
                 rec["violations"].append(("clean-dry-run-deletes", "bob clean --dry-run changed the workspace", where))
             if not flags["src"] and any("/src/" in d for d in deleted):
@@ -1587,12 +1765,21 @@ def e2e_project(seed, nops, tier):
     return rec
 
 
-def part_e2e(ctx, extra):
-    nproj = ctx.n(7, 60)
+def e2e_start(ctx, extra):
+    """launch the subprocess scenarios in worker threads (they only use absolute paths); the in-process parts run
+    in the meantime"""
+    nproj = ctx.n(7, 50)
     nops = ctx.n(10, 14)
     seeds = [c["seed"] for c in extra if c.get("part") == "e2e"] + [ctx.rng.randrange(1 << 30) for _ in range(nproj)]
-    with ThreadPoolExecutor(max_workers=4) as ex:
-        recs = list(ex.map(lambda sd: e2e_project(sd, nops, ctx.tier), seeds))
+    ex = ThreadPoolExecutor(max_workers=4)
+    return ex, [ex.submit(e2e_project, sd, nops, ctx.tier) for sd in seeds]
+
+
+def part_e2e(ctx, extra, started=None):
+    ex, futs = started if started is not None else e2e_start(ctx, extra)
+    recs = [f.result() for f in futs]
+    ex.shutdown()
+    nops = ctx.n(10, 14)
     cases, meta = [], []
     for rec in recs:
         for k, v in rec["counts"].items():
@@ -1605,7 +1792,7 @@ def part_e2e(ctx, extra):
             ctx.evaluated()
             ctx.nontrivial(("e2e", rec["seed"], len(cases)))
             cases.append((cin, want))
-            meta.append(dict(m, part="e2e", seed=rec["seed"]))
+            meta.append(dict(m, part="e2e", seed=rec["seed"], nops=nops))
         if rec.get("history"):
             ctx.sample({"part": "e2e", "seed": rec["seed"], "history": rec["history"]}, limit=8)
     bad, log = coq.run_cases(ctx, ["BobV.C16.Model"], "(fun i => i)", "e2e_ok", cases, preamble=PRE_E2E, tag="e2e", shard=12)
@@ -1613,8 +1800,18 @@ def part_e2e(ctx, extra):
         ctx.tie_broken("C16 e2e model evaluation failed", log)
         return
     ctx.validated(len(cases) - len(bad))
-    for i in bad[:5]:
-        ctx.tie_broken("e2e-correspondence", meta[i])
+    # A divergence between model and implementation is deterministic. Re-run the project of a mismatching case once in
+    # a fresh scratch directory; only a mismatch that shows up again is reported (a transient one is counted and noted).
+    for seed in sorted({meta[i]["seed"] for i in bad})[:3]:
+        first = [meta[i] for i in bad if meta[i]["seed"] == seed][0]
+        rec2 = e2e_project(seed, nops, ctx.tier)
+        cases2 = [(a, b) for a, b, m in rec2["cases"]]
+        bad2, log2 = coq.run_cases(ctx, ["BobV.C16.Model"], "(fun i => i)", "e2e_ok", cases2, preamble=PRE_E2E, tag="e2er", shard=12)
+        if bad2 is None or bad2 or rec2["errors"]:
+            ctx.tie_broken("e2e-correspondence", dict(first, rerun_mismatches=(bad2 or [])[:5], rerun_errors=rec2["errors"][:2]))
+        else:
+            ctx.count("e2e:mismatch-not-reproduced")
+            ctx.note("e2e seed %d: a model/implementation mismatch at %r did not reproduce on an identical re-run" % (seed, first.get("op")))
 
 
 def replay(ctx):
@@ -1634,5 +1831,41 @@ def replay(ctx):
         ob = run_clean_case(ctx, c)
         ctx.evaluated()
         print(json.dumps({k: ob[k] for k in ("status", "argv", "fs", "after_fs", "rm")}, indent=1))
+    elif part == "byname":
+        part_byname_replay(ctx, c)
+    elif part == "e2e":
+        rec = e2e_project(c["seed"], c.get("nops", 10), "quick")
+        ctx.evaluated()
+        print(json.dumps({"history": rec.get("history"), "errors": rec["errors"]}, indent=1)[:4000])
+        for sig, what, where in rec["violations"]:
+            print("violation:", sig, what)
+            ctx.violation(sig, what, where)
     else:
         print("replay of part %r: re-run ./check C16 quick with the recorded seed" % part)
+
+
+def part_byname_replay(ctx, c):
+    import bob.state
+    d = core.scratch_dir("c16bn")
+    try:
+        with in_dir(d):
+            fresh_state()
+            try:
+                seen = {}
+                for op in c["ops"]:
+                    if op[0] == "get":
+                        r = bob.state.BobState().getByNameDirectory(op[1], op[2], op[3])
+                        print(op, "->", r)
+                        for g, x in seen.items():
+                            if x == r and g != op[2]:
+                                ctx.violation("release-dir-shared-by-different-variants", "directory %s given to two digests" % r, c)
+                        if op[2] in seen and seen[op[2]] != r:
+                            ctx.violation("release-dir-changed-for-existing-variant", "digest moved", c)
+                        seen[op[2]] = r
+                    elif op[0] == "reload":
+                        bob.state.finalize()
+            finally:
+                fresh_state()
+    finally:
+        shutil.rmtree(d, ignore_errors=True)
+    ctx.evaluated()
